@@ -125,7 +125,17 @@ def rk_case(rep, name):
             goals['secondary'] = r['sec'] == s2
         allv = [dtv, u0v, li, le]
         for clause, goal in goals.items():
-            res, model = prove(goal, assumptions, timeout_ms=120000, name=f'rk/{name}:{clause}')
+            if clause == 'stages' and M >= 5:  # (many stages: one query per stage equation -- the conjunction of eight rational identities is slow under machine load)
+                res, model = 'unsat', None
+                for m_, eq in enumerate(eqs):
+                    r1, m1 = prove(eq, assumptions, timeout_ms=120000, name=f'rk/{name}:{clause}[{m_}]')
+                    if r1 == 'sat':
+                        res, model = r1, m1
+                        break
+                    if r1 != 'unsat':
+                        res = r1
+            else:
+                res, model = prove(goal, assumptions, timeout_ms=120000, name=f'rk/{name}:{clause}')
             rep.ob(f'rk/{name}:{clause}', res)
             if res == 'sat':
                 env = cm.model_env(model, allv)
